@@ -1013,21 +1013,26 @@ where
             lc
         })
         .collect();
-    sorted_lcs.sort_by(|a, b| {
-        if let Some(b_resume_lc) = &b.resume_lc {
-            if b_resume_lc.id == a.id {
-                // b is a resume of a so a must be earlier
-                return std::cmp::Ordering::Less;
+    // A resumed lifecycle must not be listed before the lifecycle it resumes even if its calculated
+    // start_time is earlier. Comparing "resume of" pairs directly and all others by start_time is not a
+    // total order (sort_by might panic or misplace). So we sort by the max of the start_time and the
+    // start_time of all lifecycles this one resumes (directly or indirectly) and then by id
+    // (a resumed lifecycle has always a higher id than the one it resumes).
+    let effective_start_time = |lc: &Lifecycle| -> u64 {
+        let mut start_time = lc.start_time;
+        let mut cur = lc;
+        while let Some(resume_lc) = &cur.resume_lc {
+            match lcr.get_one(&resume_lc.id) {
+                Some(orig) if orig.id < cur.id => {
+                    start_time = start_time.max(orig.start_time);
+                    cur = orig;
+                }
+                _ => break,
             }
         }
-        if let Some(a_resume_lc) = &a.resume_lc {
-            if a_resume_lc.id == b.id {
-                // a is a resume of b so b must be earlier
-                return std::cmp::Ordering::Greater;
-            }
-        }
-        a.start_time.cmp(&b.start_time)
-    });
+        start_time
+    };
+    sorted_lcs.sort_by_cached_key(|lc| (effective_start_time(lc), lc.id));
     sorted_lcs
 }
 
